@@ -567,16 +567,20 @@ func (c *CqlServerConnection) readSelfContainedSegment(incoming *segment.Segment
 
 func (c *CqlServerConnection) addMultiSegmentPayload(payload *segment.Payload) (abort bool) {
 	accumulator := c.payloadAccumulator
+	accumulator.accumulatedData = append(accumulator.accumulatedData, payload.UncompressedData...)
 	if accumulator.targetLength == 0 {
-		// First reader, read ahead to find the target length
-		if header, err := accumulator.frameCodec.DecodeHeader(bytes.NewReader(payload.UncompressedData)); err != nil {
+		if len(accumulator.accumulatedData) < primitive.FrameHeaderLengthV3AndHigher {
+			// the first segments do not even hold the whole frame header: wait for more
+			return false
+		}
+		// Read ahead to find the target length
+		if header, err := accumulator.frameCodec.DecodeHeader(bytes.NewReader(accumulator.accumulatedData)); err != nil {
 			log.Error().Err(err).Msgf("%v: error decoding first frame header in multi-segment payload, closing connection", c)
 			return true
 		} else {
 			accumulator.targetLength = int(primitive.FrameHeaderLengthV3AndHigher + header.BodyLength)
 		}
 	}
-	accumulator.accumulatedData = append(accumulator.accumulatedData, payload.UncompressedData...)
 	if accumulator.targetLength == len(accumulator.accumulatedData) {
 		// We've received enough data to reassemble the whole frame
 		encodedFrame := bytes.NewReader(accumulator.accumulatedData)
